@@ -21,8 +21,7 @@ MODULE = {
         "unsplit_netloc": {
             "types": {"username": "Opt[Str]", "password": "Opt[Str]", "hostname": "Opt[Str]", "port": "Opt[Int]", "auth": "Opt[Str]"},
             "returns": "Str",
-            # a None hostname is a precondition violation of every caller's contract: TypeError listed
-            "requires": ["hostname is not None"],
+            # total for every combination of absent parts (a URL may carry userinfo or a port and no host)
             "ensures": [],
         },
         "pathsplit": {
